@@ -264,6 +264,7 @@ func (x *Exec) inline(fn *cfront.Node, args []Val, st *State, call *cfront.Node)
 	var out []res
 	rt, _ := cfront.ParseType(strings.TrimSpace(strings.SplitN(fn.Type, "(", 2)[0]))
 	for _, r := range fl.ret {
+		x.Events = append(x.Events, Event{Kind: "fnreturn", Node: r.node, Name: fn.Name, Val: r.v, St: r.st.clone()})
 		v := r.v
 		if rt != nil {
 			v = x.castTo(r.st, v, rt)
